@@ -17,7 +17,7 @@ CLAIMED = {
  "C01": C("Machine-checked theorems over the Lean model of dataReader.Read for every stream and every read-size schedule "
           "(C01_exact, C01_sched_indep; the spec recogniser is proved equivalent to the declarative Terminated predicate; the monitor is proved "
           "to accept the model on every input); model tied to the code by an exhaustive transition-table correspondence plus enumerated and "
-          "random multi-read cases; the proved monitor is also evaluated on the implementation's own output.",
+          "random multi-read cases; the proved monitor is also evaluated on the implementation's own output; in conversations also with a backend that hands the reader to io.Copy (an io.WriterTo of the reader would be used) and behind a STARTTLS upgrade.",
           "DESIGN.md 7 C01", "Lean 4 proof over a hand-written model + differential correspondence (dr probe)",
           "reader exercised as a component over bufio; its use inside a live conversation is covered by the conv probe of C02"),
  "C02": C("C02_only_marker proved in both directions (the reader reaches EOF exactly on terminated streams), C02_eof_means_marker for every "
@@ -72,8 +72,8 @@ CLAIMED = {
  "C08": C("Proved: C08_lifecycle / C08_lifecycle_visible / C08_ends_closed - on every connection of the server model (every input, every "
           "point at which the input ends, every backend script and configuration) each session is logged out exactly once, nothing is called "
           "on it afterwards, the connection is closed exactly once, nothing is written or called after that, and at the end nobody is logged "
-          "in; Mon.check8 - the judge applied to the implementation's traces - is a proved projection of the ordering monitor. Implementation: "
-          "that judge on every cut point of 6 conversations, all server-initiated closes, sweeps and walks incl. TLS; traces compared with the model's.",
+          "in; Mon.check8 - the judge applied to the implementation's traces - is a proved projection of the ordering monitor; C08_cut_line_not_executed / C08_cut_line_not_read (wire model, every buffer, segmentation, limiter state and kind of failure: when no line feed is pending, Conn.readLine returns an error - a command line cut short by a disconnect or the idle timeout is never executed; behaviour repaired in e062bf7). Implementation: "
+          "that judge on every cut point of 6 conversations, all server-initiated closes, sweeps and walks incl. TLS; conversations that end (disconnect, timeout) inside a command line mentioning a bait; traces compared with the model's.",
           "DESIGN.md 0.3 + 7 C08", "Lean 4 proof (whole-connection invariant of the server model) + the same monitor on implementation traces + differential correspondence (conv probe)",
           "Server.Close/Shutdown racing with a connection (C20) is outside this model"),
  "C09": C("Proved on the server model: C09_insecure_unreachable (when AUTH is not allowed neither the backend nor a mechanism is ever reached, nothing but the refusal is written), C09_b64_roundtrip (the decoder is the exact inverse of the encoder on all octet strings), C09_empty_initial_response; whole connections (consequences of order_accepts_every_connection, stated on the trace): C09_never_on_insecure_connection (no Auth call and no SASL step on a connection that never becomes secure, whatever is sent), C09_at_most_once (after a successful exchange no Auth call or SASL step until the session ended); client model: C09_client_exchange_rules. AUTH reachability/at-most-once monitor on conversations over {plaintext, STARTTLS, implicit TLS} x AllowInsecureAuth x backend incl. mechanisms that fail with done=true; client half: Client.Auth against scripted peers, judged (challenges and responses cross unaltered, '*' only while the server waits) and compared with the Lean client model.",
@@ -93,7 +93,7 @@ CLAIMED = {
           "source routes, address literals and non-ASCII parameter values are decided by the reference-grammar judge and the correspondence; four lenient-parser classes are known findings"),
  "C12": C("C12_caps_exact proved for all configurations and TLS states (all limits and mechanism lists), C12_ehlo_reply, C12_helo_none, "
           "C12_disabled_504 proved; advertised <=> honoured: caps_keywords (the keywords of the list, in order), C12_starttls_honoured (listed exactly when the command is accepted, else 502), "
-          "C12_auth_honoured (listed exactly when authentication is possible; 523 where it is not allowed), C12_keyword_iff_enabled (SMTPUTF8, REQUIRETLS, BINARYMIME, DSN, RRVS, LIMITS); the complete 4608-point configuration space (backend: plain Session, AuthSession with mechanisms, AuthSession without) enumerated on the real server (TLS-active points over a real "
+          "C12_auth_honoured (listed exactly when authentication is possible; 523 where it is not allowed), C12_keyword_iff_enabled (SMTPUTF8, REQUIRETLS, BINARYMIME, DSN, RRVS, LIMITS), C12_requiretls_honoured_iff_advertised (the REQUIRETLS parameter is accepted exactly in the connection states whose capability list contains it - repaired in 548a344); the second capability list of a connection (after AUTH, an envelope, RSET, a refused STARTTLS) judged like the first; the complete 4608-point configuration space (backend: plain Session, AuthSession with mechanisms, AuthSession without) enumerated on the real server (TLS-active points over a real "
           "handshake) with one probe command per extension.",
           "DESIGN.md 7 C12", "Lean 4 proof + exhaustive configuration enumeration (conv probe)", "crypto/tls not modelled"),
  "C13": C("Proved: C13_mechanism (conn.go's statusCollector as it is built - one buffered channel per distinct address with capacity = "
@@ -148,7 +148,7 @@ CLAIMED = {
           "own_verdict_all_schedules and never_blocked_step on the chunked-delivery interleaving model for every schedule; pinned-tree "
           "counterexamples kept as regression witnesses; the start of a delivery against Conn.Close (model LateStart, every schedule): C20_late_start_no_panic, "
           "C20_late_start_never_calls (repaired code), C20_late_start_pinned_panics (the tree before c1a4e24), C20_late_start_window_remains (what no small patch closes). accept probe over outcome sequences, sched probe over forced delivery/Close/Shutdown orders "
-          "with goroutine-leak counting, connections stuck in an implicit-TLS handshake, and the whole harness replayed under Go's race detector (both tiers), including endings (Server.Close, Shutdown, the application's Conn.Close) fired without waiting for the command loop, so that nothing orders them against the running handler (three races found this way and repaired: f1c15af, 67ade1e).",
+          "with goroutine-leak counting, connections stuck in an implicit-TLS handshake, and the whole harness replayed under Go's race detector (both tiers), including endings (Server.Close, Shutdown, the application's Conn.Close) fired without waiting for the command loop, so that nothing orders them against the running handler (three races found this way and repaired: f1c15af, 67ade1e), and probe multi: several connections of one server served at the same time, each answered like a connection of its own.",
           "DESIGN.md 7 C20", "Lean 4 proof of interleaving/lifecycle models + schedule-forcing differential probes (accept, sched)",
           "the Go memory model, scheduler fairness and kernel-blocked goroutines are not expressible in the model"),
 }
